@@ -985,15 +985,24 @@ theorem route_congr (idna : Str → Option Str) (m : Mgr) (u₁ u₂ : Url.Url) 
 
 
 
+theorem all_unbracket {p : Nat → Bool} {h : Str} (ha : h.all p = true) : (unbracket h).all p = true := by
+  unfold unbracket
+  split
+  · simp only [List.all_eq_true] at ha ⊢
+    intro x hx
+    exact ha x (List.mem_of_mem_tail (List.dropLast_subset _ hx))
+  · exact ha
+
 /-- where the carrying connection of a proxied HTTPS pool goes: the proxy -/
 def proxyAddr (p : ProxyCfg) (pl : Pool) : Str × Nat :=
   match p.host with
   | some ph => (ph, p.port)
   | none => (pl.host, pl.port)
 
-/-- the `Cfg` `http.client` works with inside a tunnel: `set_tunnel(_tunnel_host, port)` -/
+/-- the `Cfg` `http.client` works with inside a tunnel: `set_tunnel(_tunnel_host, port)`, the
+brackets of `_tunnel_host` hidden while `putrequest` computes the `Host` header -/
 def tunnelCfg (pl : Pool) : Wire.Cfg :=
-  ⟨pl.tunnelHost, pl.port, 443, 16384, .error .assertionError, .error .unicodeError⟩
+  ⟨unbracket pl.tunnelHost, pl.port, 443, 16384, .error .assertionError, .error .unicodeError⟩
 
 theorem send_tunnel_ok {p : ProxyCfg} {u : Url.Url} {pl : Pool} {carried : List (Str × Str)}
     {res : Str × Nat × List Str × Option Bytes × Str × List Bytes × Bytes × List (Str × Str)}
@@ -1041,12 +1050,14 @@ theorem send_tunnel_ok {p : ProxyCfg} {u : Url.Url} {pl : Pool} {carried : List 
               · rename_i hidna
                 split at h
                 · simp at h
-                · rename_i dh dp hdl
-                  split at h
+                · split at h
                   · simp at h
-                  · rename_i prep hprep
-                    simp only [Except.ok.injEq] at h
-                    exact ⟨t, prep, dh, dp, h47, het, by simpa using hasc, by simpa using hidna, hdl, hprep, h.symm⟩
+                  · rename_i dh dp hdl
+                    split at h
+                    · simp at h
+                    · rename_i prep hprep
+                      simp only [Except.ok.injEq] at h
+                      exact ⟨t, prep, dh, dp, h47, het, by simpa using hasc, by simpa using hidna, hdl, hprep, h.symm⟩
       · simp at ht
     · simp at ht
 
@@ -1071,9 +1082,10 @@ theorem route_tunnel_ok {idna : Str → Option Str} {extra : PoolKey.Ctx} {p : P
       r.tls = (if p.scheme = https then [sniNorm (rstripDot (proxyAddr p pl).1)] else []) ++
         [sniNorm (rstripDot (lower h'))] ∧
       r.connect = some (connectBytes (lower h') (effPort u)) ∧ r.target = 47 :: tr ∧
-      r.hostHeader = [hostText (lower h') ++ (if effPort u = 443 then [] else 58 :: Wire.toDec (effPort u))] ∧
+      r.hostHeader = [hostText (unbracket (lower h')) ++
+        (if effPort u = 443 then [] else 58 :: Wire.toDec (effPort u))] ∧
       r.request = requestBytes (47 :: tr)
-        (hostText (lower h') ++ (if effPort u = 443 then [] else 58 :: Wire.toDec (effPort u))) ∧
+        (hostText (unbracket (lower h')) ++ (if effPort u = 443 then [] else 58 :: Wire.toDec (effPort u))) ∧
       r.kwHeaders = [] := by
   unfold routeWith route at h
   have hsc : (u.scheme = some http || u.scheme = some https) = true := by simp [hs]
@@ -1106,7 +1118,8 @@ theorem route_tunnel_ok {idna : Str → Option Str} {extra : PoolKey.Ctx} {p : P
       obtain ⟨rfl, rfl, rfl, rfl, rfl, rfl, rfl, rfl⟩ := hres
       obtain ⟨tr, rfl⟩ := encodeTarget_head het
       obtain ⟨hd1, hd2, -, -⟩ := dial_ok hdial
-      obtain ⟨hv1, hv2⟩ := prepare_get_origin (cfg := tunnelCfg ⟨true, unbracket h', effPort u, lower h'⟩) hasc hprep
+      obtain ⟨hv1, hv2⟩ := prepare_get_origin (cfg := tunnelCfg ⟨true, unbracket h', effPort u, lower h'⟩)
+        (all_unbracket hasc) hprep
       subst h
       exact ⟨h', tr, _, hn, rfl, het, hid, hd1, hd2, rfl, rfl, rfl, hv1, hv2, rfl⟩
 
@@ -1121,11 +1134,11 @@ theorem send_forward_ok {p : ProxyCfg} {u : Url.Url} {pl : Pool} {carried : List
     (hf : isForwarding (some p) u.scheme = true)
     (h : send (some p) u pl carried = .ok res) :
     ∃ n prep dh dp, u.netloc = some n ∧ n ≠ [] ∧
-      Wire.prepare (connCfg pl.isHttps (fwdAddr p pl).1 (fwdAddr p pl).2) methodGet u.render
+      Wire.prepare (connCfg pl.isHttps (fwdAddr p pl).1 (fwdAddr p pl).2) methodGet (absTarget u)
         (proxyHeaders u carried) .none false = .ok prep ∧
       dial (fwdAddr p pl).1 (fwdAddr p pl).2 = .ok (dh, dp) ∧
       res = (dh, dp, (if pl.isHttps then [sniNorm (rstripDot (rstripDot (fwdAddr p pl).1))] else []), none,
-        u.render, hostVals prep, writtenOf prep, proxyHeaders u carried) := by
+        (absTarget u), hostVals prep, writtenOf prep, proxyHeaders u carried) := by
   have hrt : requiresTunnel (some p) u.scheme = false := by
     simpa [isForwarding] using hf
   unfold send at h
@@ -1145,21 +1158,21 @@ theorem send_forward_ok {p : ProxyCfg} {u : Url.Url} {pl : Pool} {carried : List
         (if Wire.hcUrlBad (rstripDot a) = true then Except.error Exc.protocolError
           else
             match
-              Wire.prepare (connCfg pl.isHttps a b) methodGet u.render (proxyHeaders u carried) Wire.Body.none false,
+              Wire.prepare (connCfg pl.isHttps a b) methodGet (absTarget u) (proxyHeaders u carried) Wire.Body.none false,
               dial a b with
             | Except.error e, Except.error e' => Except.error (if pl.isHttps = true then e' else ofWireExc e)
             | Except.error e, Except.ok _ => Except.error (ofWireExc e)
             | Except.ok _, Except.error e' => Except.error e'
             | Except.ok p, Except.ok (dh, dp) =>
               Except.ok
-                (dh, dp, if pl.isHttps = true then [sniNorm (rstripDot (rstripDot a))] else [], none, u.render,
+                (dh, dp, if pl.isHttps = true then [sniNorm (rstripDot (rstripDot a))] else [], none, absTarget u,
                   hostVals p, writtenOf p, proxyHeaders u carried)) = Except.ok res →
         ∃ prep dh dp,
-          Wire.prepare (connCfg pl.isHttps (fwdAddr p pl).1 (fwdAddr p pl).2) methodGet u.render
+          Wire.prepare (connCfg pl.isHttps (fwdAddr p pl).1 (fwdAddr p pl).2) methodGet (absTarget u)
             (proxyHeaders u carried) .none false = .ok prep ∧
           dial (fwdAddr p pl).1 (fwdAddr p pl).2 = .ok (dh, dp) ∧
           res = (dh, dp, (if pl.isHttps then [sniNorm (rstripDot (rstripDot (fwdAddr p pl).1))] else []), none,
-            u.render, hostVals prep, writtenOf prep, proxyHeaders u carried) := by
+            (absTarget u), hostVals prep, writtenOf prep, proxyHeaders u carried) := by
       intro a b hab h
       rw [hab]
       split at h
@@ -1173,11 +1186,11 @@ theorem send_forward_ok {p : ProxyCfg} {u : Url.Url} {pl : Pool} {carried : List
           exact ⟨prep, dh, dp, hp, hdl, h.symm⟩
     refine ⟨n, ?_⟩
     suffices hsuff : ∃ prep dh dp,
-          Wire.prepare (connCfg pl.isHttps (fwdAddr p pl).1 (fwdAddr p pl).2) methodGet u.render
+          Wire.prepare (connCfg pl.isHttps (fwdAddr p pl).1 (fwdAddr p pl).2) methodGet (absTarget u)
             (proxyHeaders u carried) .none false = .ok prep ∧
           dial (fwdAddr p pl).1 (fwdAddr p pl).2 = .ok (dh, dp) ∧
           res = (dh, dp, (if pl.isHttps then [sniNorm (rstripDot (rstripDot (fwdAddr p pl).1))] else []), none,
-            u.render, hostVals prep, writtenOf prep, proxyHeaders u carried) by
+            (absTarget u), hostVals prep, writtenOf prep, proxyHeaders u carried) by
       obtain ⟨prep, dh, dp, h1, h2, h3⟩ := hsuff
       exact ⟨prep, dh, dp, rfl, hn2, h1, h2, h3⟩
     unfold fwdAddr proxyAddr at key ⊢
@@ -1255,9 +1268,9 @@ theorem route_forward_carried {idna : Str → Option Str} {extra : PoolKey.Ctx} 
       PoolKey.portOr (poolTarget (some p) u).2.1 (schemeOrO (poolTarget (some p) u).2.2) = .int pv ∧
       newPool idna (schemeOrO (poolTarget (some p) u).2.2) hst pv.toNat = .ok pl ∧
       r.dialHost = dialName (fwdAddr p pl).1 ∧ r.dialPort = (fwdAddr p pl).2 ∧
-      r.connect = none ∧ r.target = u.render ∧
+      r.connect = none ∧ r.target = absTarget u ∧
       r.hostHeader = (if n' != Gen.skipHeader then [n'] else []) ∧
-      r.request = fwdRequestBytes u.render n' ∧
+      r.request = fwdRequestBytes (absTarget u) n' ∧
       r.kwHeaders = [acceptHdr, (lit "Host", n')] := by
   unfold routeWith route at h
   have hsc' : (u.scheme = some http || u.scheme = some https) = true := by
@@ -1290,9 +1303,9 @@ theorem route_forward_ok {idna : Str → Option Str} {extra : PoolKey.Ctx} {p : 
       PoolKey.portOr (poolTarget (some p) u).2.1 (schemeOrO (poolTarget (some p) u).2.2) = .int pv ∧
       newPool idna (schemeOrO (poolTarget (some p) u).2.2) hst pv.toNat = .ok pl ∧
       r.dialHost = dialName (fwdAddr p pl).1 ∧ r.dialPort = (fwdAddr p pl).2 ∧
-      r.connect = none ∧ r.target = u.render ∧
+      r.connect = none ∧ r.target = absTarget u ∧
       r.hostHeader = (if n != Gen.skipHeader then [n] else []) ∧
-      r.request = fwdRequestBytes u.render n ∧
+      r.request = fwdRequestBytes (absTarget u) n ∧
       r.kwHeaders = [acceptHdr, (lit "Host", n)] := by
   -- the netloc is known to be present once the request was sent; get it from the general lemma's
   -- own conclusion by first establishing the headers under a case split on `u.netloc`
@@ -2027,5 +2040,46 @@ theorem normalizeHost_stable_zoned (idna : Str → Option Str) (h s : Str) (hsch
   rw [List.append_assoc, List.append_assoc, ← List.append_assoc [37] z, e1, List.takeWhile_append_dropWhile,
     List.takeWhile_append_dropWhile]
 
+/-! ## after the repairs: the absolute-form target, the `Host` header inside a tunnel -/
+
+/-- the absolute-form target spelled out: scheme, host, port as written, path, query — nothing else -/
+theorem absTarget_eq (u : Url.Url) :
+    absTarget u =
+      (match u.scheme with | some s => s ++ [58, 47, 47] | none => []) ++
+      (match u.host with | some h => h | none => []) ++
+      (match u.port with | some n => 58 :: Url.natToDec n | none => []) ++
+      (match u.path with | some x => x | none => []) ++ qSuffix u.query := by
+  cases hq : u.query <;> simp [absTarget, Url.Url.render, qSuffix, hq] <;> rfl
+
+/-- userinfo and fragment reach neither the pool choice nor anything `send` computes — on every kind of
+route (the absolute-form target is rendered without them, `netloc` never contained them) -/
+theorem route_auth_frag (idna : Str → Option Str) (m : Mgr) (u : Url.Url) (a f : Option Str)
+    (carried : List (Str × Str)) :
+    route idna m { u with auth := a, fragment := f } carried = route idna m u carried := rfl
+
+theorem lowerC_eq_91 (c : Nat) : lowerC c = 91 ↔ c = 91 := by
+  unfold lowerC; split <;> omega
+
+theorem lowerC_eq_93 (c : Nat) : lowerC c = 93 ↔ c = 93 := by
+  unfold lowerC; split <;> omega
+
+/-- removing the enclosing brackets commutes with lower-casing -/
+theorem unbracket_lower (h : Str) : unbracket (lower h) = lower (unbracket h) := by
+  unfold unbracket lower
+  have h1 : (h.map lowerC).head? = some 91 ↔ h.head? = some 91 := by
+    cases h with
+    | nil => simp
+    | cons a t => simp [lowerC_eq_91]
+  have h2 : (h.map lowerC).getLast? = some 93 ↔ h.getLast? = some 93 := by
+    rw [List.getLast?_map]
+    cases h.getLast? with
+    | none => simp
+    | some a => simp [lowerC_eq_93]
+  have d1 : decide ((h.map lowerC).head? = some 91) = decide (h.head? = some 91) := decide_eq_decide.mpr h1
+  have d2 : decide ((h.map lowerC).getLast? = some 93) = decide (h.getLast? = some 93) := decide_eq_decide.mpr h2
+  rw [d1, d2]
+  split
+  · rw [List.map_dropLast, List.map_tail]
+  · rfl
 
 end U3.Route
